@@ -85,8 +85,8 @@ theorem svcT_cancelTimer_other (s : Stack) (own : Cb → Bool) (t : Option Nat) 
   svcT_cancelTimer_other s _ t (fun cb h => by cases cb <;> simp_all [isSubExpiry, isSvcExpiry])
 @[simp] theorem svcT_cancelTimer_subFor (s : Stack) (i : Nat) (a : Addr) (k : SubKey) (t : Option Nat) : svcT (s.cancelTimer (isSubExpiryFor i a k) t) = svcT s :=
   svcT_cancelTimer_other s _ t (fun cb h => by cases cb <;> simp_all [isSubExpiryFor, isSvcExpiry])
-@[simp] theorem svcT_cancelTimer_sleep (s : Stack) (t : Option Nat) : svcT (s.cancelTimer isSleep t) = svcT s :=
-  svcT_cancelTimer_other s _ t (fun cb h => by cases cb <;> simp_all [isSleep, isSvcExpiry])
+@[simp] theorem svcT_cancelTimer_sleep (s : Stack) (tid : Tid) (t : Option Nat) : svcT (s.cancelTimer (isSleepFor tid) t) = svcT s :=
+  svcT_cancelTimer_other s _ t (fun cb h => by cases cb <;> simp_all [isSleepFor, isSvcExpiry])
 
 @[simp] theorem isSvc_connLost (p : Part) : isSvcExpiry (.connLost p) = false := rfl
 @[simp] theorem isSvc_expiredSub (i : Nat) (a : Addr) (k : SubKey) : isSvcExpiry (.expiredSub i a k) = false := rfl
@@ -114,6 +114,8 @@ theorem svcT_armTtl (s : Stack) (ttl : Nat) (cb : Cb) (h : isSvcExpiry cb = fals
 @[simp] theorem svcT_with_flushLog (s : Stack) (x : List (Dest × List SDEntry)) : svcT { s with flushLog := x } = svcT s := rfl
 @[simp] theorem svcT_with_subLog (s : Stack) (x : List (Addr × Nat × List Eventgroup)) : svcT { s with subLog := x } = svcT s := rfl
 @[simp] theorem svcT_with_findLog (s : Stack) (x : List (Nat × Nat)) : svcT { s with findLog := x } = svcT s := rfl
+@[simp] theorem svcT_with_subMarks (s : Stack) (x : List (Option Nat × Nat)) : svcT { s with subMarks := x } = svcT s := rfl
+@[simp] theorem svcT_markRound (s : Stack) (n : Nat) : svcT (s.markRound n) = svcT s := rfl
 @[simp] theorem svcT_with_subDup (s : Stack) (x : Bool) : svcT { s with subDup := x } = svcT s := rfl
 @[simp] theorem svcT_with_subLost (s : Stack) (x : Bool) : svcT { s with subLost := x } = svcT s := rfl
 @[simp] theorem svcT_with_alive_subLost (s : Stack) (x y : Bool) : svcT { s with alive := x, subLost := y } = svcT s := rfl
@@ -249,7 +251,7 @@ theorem svcT_armTtl (s : Stack) (ttl : Nat) (cb : Cb) (h : isSvcExpiry cb = fals
   unfold subscriberStart; split
   · rfl
   · simp only []
-    exact (svcT_with_subTask _ _).trans (by simp)
+    exact (svcT_with_subTask _ _).trans (by simp; rfl)
 
 @[simp] theorem svcT_subscriberStop (s : Stack) (b : Bool) : svcT (s.subscriberStop b) = svcT s := by
   unfold subscriberStop; split; rfl
